@@ -66,7 +66,7 @@ EncCoarseNames(c) ==
                   \cup (IF \A t \in 1..Len(passes) : ~runs[t].dom \/ SlotsAgree(c, t, runs[t]) THEN {} ELSE {"coarse symbols (tier, qi before / after the clamps)"})
                   \cup (IF kept # 0 THEN {} ELSE {"encoder's coarse energies / error"})
                   \cup (IF kept = 0 \/ Len(passes) < 2 \/ ~(runs[1].dom /\ runs[2].dom) \/ runs[1].old = runs[2].old THEN {}
-                        ELSE IF (runs[1].bad < runs[2].bad /\ kept # 1) \/ (runs[1].bad > runs[2].bad /\ kept # 2) THEN {"two-pass choice against badness"} ELSE {})
+                        ELSE IF c.lfe = 0 /\ ((runs[1].bad < runs[2].bad /\ kept # 1) \/ (runs[1].bad > runs[2].bad /\ kept # 2)) THEN {"two-pass choice against badness"} ELSE {})
                   \cup (IF kept = 0 \/ (\E j \in 1..(c.C * NB) : AbsV(c.eb[j] - c.in[j]) > 50 * QOne) THEN {}
                         ELSE IF c.dI1 = DelayedIntraNext(f, passes[kept], NewDistortion(f, c.eb, c.in)) \/ (Len(passes) = 2 /\ runs[1].old = runs[2].old
                                      /\ c.dI1 = DelayedIntraNext(f, passes[3 - kept], NewDistortion(f, c.eb, c.in)))
@@ -152,7 +152,7 @@ LostNames(e) ==
   IF e.hasS # 1 \/ ~StateArrOK(e.dS0) \/ ~StateArrOK(e.dS1) \/ e.L0 < 0 \/ e.L0 > 10000 THEN {}
   ELSE LET s0 == DSt(e.dS0)  s1 == DSt(e.dS1)
            f == [C |-> e.C, LM |-> e.LM, start |-> e.start, end |-> e.end]
-           u == DecLost(f, e.L0, e.K0, s0.e, s0.bg) IN
+           u == DecLost(f, e.DC, e.L0, e.K0, s0.e, s0.bg) IN
        (IF u.e = s1.e /\ s1.l1 = s0.l1 /\ s1.l2 = s0.l2 /\ s1.bg = s0.bg /\ e.L1 = u.ld THEN {} ELSE {"state after a lost frame (decay / loss_duration)"})
        \cup (IF \A j \in 1..N2 : s1.e[j] <= s0.e[j] \/ s1.e[j] = s0.bg[j] THEN {} ELSE {"energy rises during loss"})
 RangeNames(e) ==
@@ -180,13 +180,19 @@ EncCallsOK(e) == HasCall(e.qc) /\ HasCall(e.qf) /\ HasCall(e.qz)
 DecCallsOK(e) == HasCall(e.uc) /\ HasCall(e.uf) /\ HasCall(e.uz)
 Usable(e) == EncCallsOK(e) /\ DecCallsOK(e) /\ e.er >= 0 /\ e.dr >= 0 /\ e.eerr = 0
 EnergiesAgree(e) == EqOn(e.uz.out, e.qz.out, FF(e.qz), e.qz.C)
+\* the mirror is a statement about one frame: it needs equal predictor states (after an earlier named deviation they differ)
+PreStatesAgree(e) == EqOn(e.uc.in, e.qc.in, FF(e.qz), e.qz.C)
+\* StarvedSilenceDeviation: a frame that finds no bit left (tell >= total_bits) is "silence" for the decoder (energies := -28) but not
+\* for the encoder, which keeps its quantised energies: the two states differ from the next frame on
+StarvedSilence(e) == e.hasS = 1 /\ Usable(e) /\ AllTier0(e.uc) /\ EnergiesAgree(e) /\ Len(e.dS1) = 4 * N2 /\ Len(e.eS1) = 4 * e.CC * NB
+                     /\ ~EqOn(e.dS1, e.eS1, FF(e.qz), e.qz.C)
 RangesAgree(e) == e.eh = e.dh /\ e.el = e.dl
 SymbolsAgree(e, k) == DecShapeOK(e.uc) /\ DecSyms(e.uc) = k.syms /\ (~k.flagged \/ e.uc.intra = k.intra)
 Deviation(ks) == \E k \in ks : k.onebit \/ k.hi
 
 PktPropNames(e) ==
   IF ~Usable(e) THEN {}
-  ELSE (IF ~EnergiesAgree(e) /\ ~RangesAgree(e) THEN {"C02: decoded band energies differ from the encoder's and the final ranges differ"} ELSE {})
+  ELSE (IF ~EnergiesAgree(e) /\ ~RangesAgree(e) /\ PreStatesAgree(e) THEN {"C02: decoded band energies differ from the encoder's and the final ranges differ"} ELSE {})
        \cup (IF e.uc.err = 0 /\ e.uf.err = 0 /\ e.uz.err = 0 /\ e.derr = 0 THEN {} ELSE {"C02: the decoder's range coder reports an error on an encoder-made packet"})
 PktModelNames(e) ==
   (IF HasCall(e.qc) THEN EncCoarseNames(e.qc) ELSE IF e.qc.n = 0 THEN {} ELSE {"more than one quant_coarse_energy call per packet"})
@@ -196,7 +202,7 @@ PktModelNames(e) ==
   \cup DecCallsNames(e) \cup DecStateNames(e) \cup EncStateNames(e)
   \cup (IF ~Usable(e) THEN {}
         ELSE LET k == EncKept(e.qc) IN
-             (IF EnergiesAgree(e) \/ Deviation(k) THEN {} ELSE {"mirror: decoder energies differ from the encoder's outside OneBitTierDeviation / UpperClampDeviation"})
+             (IF EnergiesAgree(e) \/ Deviation(k) \/ ~PreStatesAgree(e) THEN {} ELSE {"mirror: decoder energies differ from the encoder's outside OneBitTierDeviation / UpperClampDeviation"})
              \cup (IF k = {} \/ (\E kk \in k : SymbolsAgree(e, kk)) THEN {} ELSE {"mirror: decoded coarse symbols / tells / intra flag differ from the coded ones"})
              \cup (IF e.uf.bits = e.qf.bits /\ e.uz.bits = e.qz.bits THEN {} ELSE {"mirror: fine / final bits read differ from the bits written"}))
 
@@ -229,7 +235,8 @@ Census ==
   LET e == Tr[l] IN
   IF e.k # "pkt" \/ ~HasCall(e.qc) THEN TRUE
   ELSE LET ks == EncKept(e.qc) IN
-       IF Deviation(ks) /\ Usable(e)
+       IF StarvedSilence(e) THEN PrintT("DEV " \o ToString(l) \o " starved")
+       ELSE IF Deviation(ks) /\ Usable(e)
        THEN PrintT("DEV " \o ToString(l) \o (IF \E k \in ks : k.onebit THEN " onebit" ELSE "") \o (IF \E k \in ks : k.hi THEN " hi" ELSE "") \o (IF EnergiesAgree(e) THEN " same" ELSE " differ"))
        ELSE TRUE
 
